@@ -13,7 +13,6 @@ IMPORTS = "From DtlsV Require Import Lib.Bytes Frag.Split Frag.Buffer Frag.Buffe
 SITE_POP = "internal/fragmentbuffer/fragment_buffer.go Pop"
 SITE_PUSH = "internal/fragmentbuffer/fragment_buffer.go Push"
 SITE_SPLIT = "conn.go fragmentHandshake"
-PANIC_INPUT = "16fefd0000000000000001000c0e0000000000000001000000"
 MAX_SIZE, MAX_COUNT = 2000000, 1000
 
 
@@ -109,10 +108,15 @@ def monitor_honest(c, completeness):
     messages 0..j have arrived (one partition per message, within the limits)."""
     msgs = c["msgs"]
     universe = {}
+    maxrec = 0
     for o in c["ops"]:
         if o["k"] == "push":
+            maxrec = max(maxrec, o["rec"]["n"])
             for f in o["rec"].get("frags", []):
                 universe.setdefault(f["seq"], set()).add((f["off"], f["flen"]))
+    # completeness is only owed within the fixed buffering limits (premises of C12_reassembly_complete)
+    if sum(len(v) for v in universe.values()) >= MAX_COUNT or sum(m["len"] for m in msgs) + maxrec >= MAX_SIZE:
+        completeness = False
     arrived = {}     # fragments handed to Push while their message was not yet delivered
     wire = {}        # every fragment that reached the receiver (even if Push refused the record)
     popped = 0
@@ -232,60 +236,61 @@ def run(chk):
     by_leg = {}
     for c in cases:
         by_leg.setdefault(c["leg"], []).append(c)
-    wit = {c["note"]: c for c in by_leg.get("witness", [])}
+    reg = {c["note"]: c for c in by_leg.get("regress", [])}
+    bnd = {c["note"]: c for c in by_leg.get("boundary", [])}
 
     # ---- implementation-side monitors ------------------------------------------------------
-    # (1) the witnesses of the *_refuted lemmas, replayed on the implementation
-    explained_panic = False
-    w = wit.get("panic")
+    # (1) regression corpus (runs first): the two inputs that failed before the fix in the tree
+    w = reg.get("old-panic-input")
+    if w is None or reg.get("zero-fragment") is None:
+        if rc1 == 0:
+            chk.broken("regression corpus cases missing from TestVerifC12Buffer output", o1)
     if w is not None:
-        raw = w["ops"][0]["raw"]
-        if w["ops"][0]["panic"]:
-            explained_panic = True
+        o = w["ops"][0]
+        if o["panic"] or o.get("pushpanic"):
             found_input = True
-            chk.finding(SITE_POP, {"monitor": "panic", "input": PANIC_INPUT if raw == PANIC_INPUT else raw},
+            chk.finding(SITE_POP, {"monitor": "panic", "input": o["raw"]},
                         "Pop dereferences the nil fragmentByOffset[0]: nil-pointer panic after one Push of a handshake "
-                        "fragment with Length=0, fragment_length=0, fragment_offset=1 (handshake.Header.Unmarshal "
-                        "accepts it; unauthenticated, epoch 0) - model: BufferSound.pop_panic_iff / pop_panic_reachable",
-                        {"how": "fb := fragmentbuffer.New(); fb.Push(payload); fb.Pop()  // conn.go bufferHandshakeRecord "
-                                "does exactly this for any inbound handshake record",
-                         "payload_hex": raw, "observed": w["ops"][0], "rerun": rerun})
-    for note, sig_input, what in (
-            ("capacity", "one message cut into 1001 one-byte fragments (MTU 1), each in its own record, in order, sent twice",
-             "a message cut into more than fragmentBufferMaxCount (1000) fragments can never be reassembled: after 1000 "
-             "stored fragments every Push fails with ErrFragmentBufferOverflow and nothing frees space "
-             "(model: BufferSound.capacity_wedges_refuted / full_rejects_forever)"),
-            ("zero-fragment", "4-byte message, partition (0,2)(2,0)(2,2), arrival (0,2),(2,0),(2,2), sent twice",
-             "a zero-length fragment stored at the offset where the next fragment starts keeps that offset (first "
-             "writer wins): the message is never reassembled although every fragment arrived "
-             "(model: BufferSound.zero_fragment_wedges_refuted / zero_fragment_wedges_forever)")):
-        w = wit.get(note)
+                        "fragment with Length=0, fragment_length=0, fragment_offset=1",
+                        {"how": "fb := fragmentbuffer.New(); fb.Push(payload); fb.Pop()", "payload_hex": o["raw"],
+                         "observed": o, "rerun": rerun})
+        elif o["res"] != [True, False, False] or o["pops"] or o["cn"] != 0 or o["sz"] != 0:
+            found_input = True
+            chk.finding(SITE_PUSH, {"monitor": "empty-fragment-not-inert", "input": o["raw"]},
+                        "an empty fragment at a non-zero offset was not ignored", {"observed": o, "rerun": rerun})
+    w = reg.get("zero-fragment")
+    if w is not None:
+        m = monitor_bounds(w) or monitor_honest(w, completeness=True)
+        if m:
+            found_input = True
+            chk.finding(SITE_PUSH, {"monitor": m[0], "input": "4-byte message, partition (0,2)(2,0)(2,2), arrival (0,2),(2,0),(2,2)"},
+                        m[1], {"case": w, "rerun": rerun})
+    # (1b) documented liveness boundaries (outside the premises of C12_reassembly_complete): safety
+    # monitors only; what the implementation did is recorded
+    for note in ("repartition", "capacity"):
+        w = bnd.get(note)
         if w is None:
             continue
-        m = monitor_honest(w, completeness=False)
+        m = monitor_bounds(w) or monitor_honest(w, completeness=False)
         if m:
             found_input = True
-            chk.finding(SITE_POP, {"monitor": m[0], "witness": note}, m[1], {"case": strip_case(w), "rerun": rerun})
-            continue
-        allarr = sum(len(o["pops"]) for o in w["ops"]) == 0
-        if allarr:
-            found_input = True
-            chk.finding(SITE_PUSH, {"monitor": "complete-not-popped", "input": sig_input}, what,
-                        {"how": "push every listed fragment as its own handshake record (epoch 0) into a fresh "
-                                "FragmentBuffer, Pop until nil after each Push: nothing is ever returned",
-                         "msgs": w["msgs"] if note != "capacity" else [{"ty": 11, "seq": 0, "len": 1001, "body": "07 x 1001"}],
-                         "ops_head": strip_case(w, 8)["ops"], "total_pushes": len(w["ops"]), "rerun": rerun})
-    w = wit.get("repartition")
+            chk.finding(SITE_POP, {"monitor": m[0], "boundary": note}, m[1], {"case": strip_case(w), "rerun": rerun})
+    w = bnd.get("repartition")
     if w is not None:
-        m = monitor_honest(w, completeness=False)
-        if m:
-            found_input = True
-            chk.finding(SITE_POP, {"monitor": m[0], "witness": "repartition"}, m[1], {"case": w, "rerun": rerun})
-        chk.leg_info("witness", repartition_outside_quantifier={
+        chk.leg_info("boundary", repartition_outside_quantifier={
             "what": "fragments of the MTU-2 and MTU-3 partitions of one 4-byte message mixed: (0,2),(3,1),(2,2) -> "
                     "fragmentsLength 5 != 4 for ever (BufferSound.repartition_wedges_refuted). Safety holds "
                     "(reassembly_safe covers any mixture of genuine slices); liveness does not. Outside C12's "
                     "quantifier (one partition per message); RFC 6347 4.2.3 asks receivers to handle overlapping ranges.",
+            "messages_popped_on_implementation": sum(len(o["pops"]) for o in w["ops"])})
+    w = bnd.get("capacity")
+    if w is not None:
+        chk.leg_info("boundary", capacity_is_the_fixed_buffering_limit={
+            "what": "a message cut into 1001 fragments exceeds fragmentBufferMaxCount: after 1000 stored fragments every "
+                    "Push returns ErrFragmentBufferOverflow (BufferSound.capacity_wedges_refuted / full_rejects_forever); "
+                    "this is the fixed limit C08 requires and a premise of C12_reassembly_complete, not a defect",
+            "pushes": len(w["ops"]), "push_errors": sum(1 for o in w["ops"] if o["res"][2]),
+            "max_count_seen": max(o["cn"] for o in w["ops"]),
             "messages_popped_on_implementation": sum(len(o["pops"]) for o in w["ops"])})
 
     # (2) generated honest histories
@@ -297,11 +302,11 @@ def run(chk):
                 chk.finding(SITE_POP if m[0] != "push-error" else SITE_PUSH, {"monitor": m[0], "leg": leg}, m[1],
                             {"case": strip_case(c), "rerun": rerun})
                 break
-    # (3) hostile / limits: bounds and panics (a panic the model also predicts is the finding above)
+    # (3) hostile / limits: bounds and panics
     for leg in ("hostile", "limits"):
         for c in by_leg.get(leg, []):
             m = monitor_bounds(c)
-            if m and not (m[0] == "panic" and explained_panic and not any(o.get("pushpanic") for o in c["ops"])):
+            if m:
                 found_input = True
                 chk.finding(SITE_POP, {"monitor": m[0], "leg": leg}, m[1], {"case": strip_case(c), "rerun": rerun})
                 break
@@ -360,9 +365,9 @@ def run(chk):
         chk.count("hostile", len(hs), [key_of(c) for c in nontriv],
                   samples=[{"ops": len(c["ops"]), "panic": any(o.get("panic") for o in c["ops"]),
                             "popped": sum(len(o["pops"]) for o in c["ops"])} for c in nontriv[-2:]])
-        chk.leg_info("hostile", pop_panics_predicted_by_model=sum(1 for c in hs if any(o.get("panic") for o in c["ops"])),
+        chk.leg_info("hostile", pop_panics=sum(1 for c in hs if any(o.get("panic") for o in c["ops"])),
                      pops=sum(len(o["pops"]) for c in hs for o in c["ops"]))
-        for leg in ("limits", "witness"):
+        for leg in ("limits", "regress", "boundary"):
             cs = by_leg.get(leg, [])
             chk.count(leg, len(cs), [key_of(c) for c in cs],
                       samples=[{"note": c.get("note"), "ops": len(c["ops"]),
@@ -386,7 +391,8 @@ def run(chk):
              "(exh: all partitions x all arrival permutations x one duplicate, bodies <= 4 bytes / 2 messages <= 2 bytes; "
              "small: 1-5 messages <= 64 bytes, MTU 1..70, shuffles + duplicates + 1-3 fragments per record + junk "
              "records; hostile: inconsistent Length, overlapping offsets, zero-length fragments, 24-bit extremes, broken "
-             "tails, AdvanceTo; limits: both resource limits reached; witness: the *_refuted lemmas replayed). "
+             "tails, AdvanceTo; limits: both resource limits reached; regress: the two formerly failing inputs, run "
+             "first; boundary: the documented liveness boundaries replayed). "
              "big: messages <= 40000 bytes, MTU <= 2000, monitored on the implementation only. split: "
              "(*Conn).fragmentHandshake vs Frag/Split.v (every length 0..12 x MTU 1..13 exhaustively + random). "
              "Non-trivial = at least one message popped from at least two fragments (honest legs) / something stored "
